@@ -690,7 +690,11 @@ func (sc *mScene) acceptSubLong(p *Party, cp client.ChannelProposal, r *client.P
 	}
 	acc := m.Accept(p.nextNonce())
 	vsched.GoNamed("accept-sub-V", func() {
-		ctx, cancel := context.WithTimeout(context.Background(), 30*time.Second)
+		d := 30 * time.Second
+		if sc.acceptCtx > 0 {
+			d = sc.acceptCtx
+		}
+		ctx, cancel := context.WithTimeout(context.Background(), d)
 		defer cancel()
 		if _, err := r.Accept(ctx, acc); err != nil {
 			sc.threadErrs = append(sc.threadErrs, "V accept sub-channel: "+err.Error())
@@ -888,6 +892,224 @@ func a1Cases() (out []mcase) {
 			Msg: &client.ChannelUpdateMsg{ChannelUpdate: client.ChannelUpdate{State: st, ActorIdx: 1}, Sig: sc.sign("M", st)}}}
 	})
 	return out
+}
+
+// ---------------------------------------------------------------- "~syncrace": a sync message racing with an honest update the victim accepts
+
+// syncRaceMembers: "<sender of the sync message>/<order>".
+var syncRaceMembers = []string{"peer/sync-first", "peer/update-first", "stranger/sync-first", "stranger/update-first"}
+
+// syncRaceRun: every publication of the victim takes 5 ms. A ChannelSyncMsg with the channel's current
+// transaction (from M resp. the stranger) and the real M's honest next update (the victim's handler
+// accepts) arrive 1 ms apart, in either order; afterwards the usual probes.
+func (sc *mScene) syncRaceRun(member string) string {
+	from, order, _ := strings.Cut(member, "/")
+	V, w := sc.V, sc.w
+	V.OnProposal, V.OnUpdate = nil, nil
+	w.Bus.Drop = func(e *wire.Envelope) bool {
+		if w.partyOf(e.Sender) == V.Idx {
+			vsched.Sleep(5 * time.Millisecond)
+			// The victim's sync REPLY is itself a ChannelSyncMsg: delivered to the real M it would be answered
+			// again, and the two honest clients would answer each other for ever (observed: the execution runs
+			// into the step cap). The sync request is the harness' doing, so its reply is not delivered.
+			if _, isSync := e.Msg.(*client.ChannelSyncMsg); isSync {
+				return true
+			}
+		}
+		return false
+	}
+	who := partyIdent(sc.M)
+	if from == "stranger" {
+		who = sc.S
+	}
+	syncEnv := &wire.Envelope{Sender: who.Wire, Recipient: V.WireID, Msg: &client.ChannelSyncMsg{Phase: channel.Acting, CurrentTX: sc.curTX()}}
+	res := ""
+	done := make(chan struct{}, 1)
+	update := func() {
+		vsched.GoNamed("m-update", func() {
+			ctx, cancel := context.WithTimeout(context.Background(), 10*time.Second)
+			defer cancel()
+			res = classify(sc.mled.Update(ctx, pay(int(sc.mled.Idx()), 1, false)))
+			vsched.Send(done, struct{}{})
+		})
+	}
+	inject := func() {
+		if err := w.Bus.Inject(syncEnv, false); err != nil {
+			panic("harness: inject: " + err.Error())
+		}
+	}
+	if order == "sync-first" {
+		inject()
+		vsched.Sleep(time.Millisecond)
+		update()
+	} else {
+		update()
+		vsched.Sleep(time.Millisecond)
+		inject()
+	}
+	vsched.Recv(done)
+	if strings.HasPrefix(res, "err:") {
+		res = "error"
+	}
+	return "M's update: " + res
+}
+
+// ---------------------------------------------------------------- "~fundlate": the funding update arrives after the victim's funding wait has timed out
+
+var fundLateMembers = []string{"fund-matching-late", "fund-matching-late-relayed-by-stranger", "nothing"}
+
+// fundLateRun (open-v1): the harness opens a sub-channel (2:4) with the victim in M's name and COMPLETES
+// the version-0 signature exchange, so the victim (Accept context 10 s) waits for the parent funding
+// update; M withholds it until 15 s later - the victim's Accept has returned its timeout error - and only
+// then sends the correctly signed matching funding update.
+func (sc *mScene) fundLateRun(obs *msgsObs, member string) {
+	sc.acceptCtx = 10 * time.Second
+	sc.V.OnProposal, sc.V.OnUpdate = sc.acceptSubLong, nil
+	sc.dropVictim()
+	obs.Items = []mItemObs{{Name: "fundlate/" + member, Cat: "fundlate", Mut: true}}
+	it := &obs.Items[0]
+	init := sc.proposeSubAsM([]int64{2, 4}, []int64{2, 4})
+	if init == nil {
+		it.NotExpr = "the victim did not accept the sub-channel proposal"
+		return
+	}
+	sc.completeSubAsM(init)
+	vsched.Sleep(15 * time.Second)
+	if len(sc.threadErrs) == 0 {
+		it.NotExpr = "the victim's Accept has not failed after 15 s: the case is vacuous"
+		return
+	}
+	if member == "nothing" {
+		it.NA = true
+		return
+	}
+	sender := sc.M.WireID
+	if strings.HasSuffix(member, "relayed-by-stranger") {
+		sender = sc.S.Wire
+	}
+	env := &wire.Envelope{Sender: sender, Recipient: sc.V.WireID, Msg: sc.subFunding(init.ID, 6, 2, 4)}
+	if dec, _, why := mPrepare(env, false); dec == nil {
+		it.NotExpr = why
+		return
+	}
+	if err := sc.w.Bus.Inject(env, false); err != nil {
+		panic("harness: inject: " + err.Error())
+	}
+}
+
+// ---------------------------------------------------------------- C08 "~heldupd": a sub-channel proposal while an accepted parent update is being handled
+
+var heldUpdMembers = []string{"exceeds-after-update", "fits-after-update"}
+
+// heldUpdRun (open-v1: M is the parent's index 0): the real M sends an honest parent update that moves 8 of
+// its 10 to the victim; the victim's update handler waits 5 s of virtual time and then accepts. 1 s after
+// the update the harness sends in M's name a sub-channel proposal whose funds for M are 5 (fit the
+// parent's state before the update, exceed it afterwards) resp. 2 (still fit: control, the proposal
+// handler - which rejects - must be invoked exactly once).
+func (sc *mScene) heldUpdRun(obs *msgsObs, member string) {
+	V, w := sc.V, sc.w
+	w.Bus.Drop = nil
+	V.OnProposal = rejectProposals
+	V.OnUpdate = func(p *Party, _ *channel.State, _ client.ChannelUpdate, r *client.UpdateResponder) {
+		vsched.Sleep(5 * time.Second)
+		ctx, cancel := context.WithTimeout(context.Background(), 5*time.Second)
+		defer cancel()
+		if err := r.Accept(ctx); err != nil {
+			p.HandlerErrs = append(p.HandlerErrs, "accept update: "+err.Error())
+		}
+	}
+	control := member == "fits-after-update"
+	obs.Items = []mItemObs{{Name: "heldupd/" + member, Cat: "proposal", Mut: !control, Control: control}}
+	done := make(chan struct{}, 1)
+	vsched.GoNamed("m-update", func() {
+		ctx, cancel := context.WithTimeout(context.Background(), 20*time.Second)
+		defer cancel()
+		if err := sc.mled.Update(ctx, pay(int(sc.mled.Idx()), 8, false)); err != nil {
+			sc.threadErrs = append(sc.threadErrs, "M's parent update: "+err.Error())
+		}
+		vsched.Send(done, struct{}{})
+	})
+	vsched.Sleep(time.Second)
+	mFunds := int64(5)
+	if control {
+		mFunds = 2
+	}
+	p, err := client.NewSubChannelProposal(sc.led.ID(), 60, mAlloc(w.Asset, mFunds, 1), client.WithNonce(mFixedID(0x66)))
+	if err != nil {
+		panic("harness: " + err.Error())
+	}
+	p.ProposalID = mFixedID(0xED)
+	env := &wire.Envelope{Sender: sc.M.WireID, Recipient: V.WireID, Msg: p}
+	if dec, _, why := mPrepare(env, false); dec == nil {
+		obs.Items[0].NotExpr = why
+	} else if err := w.Bus.Inject(env, false); err != nil {
+		panic("harness: inject: " + err.Error())
+	}
+	vsched.Recv(done)
+	// the victim's answers to the crafted proposal must not reach the real M's proposal bookkeeping: harmless
+	// (M knows no such proposal)
+}
+
+// ---------------------------------------------------------------- "~finundeliv-*": the acceptance of a FINAL sub-channel update cannot be delivered
+
+var finUndelivMembers = []string{"then-parent-withdrawal", "then-nothing"}
+
+// finUndelivRun (sub-v1: the victim is index 1 of the parent and of the sub-channel): the real M sends the
+// correctly signed final sub-channel state (it pays 1), the victim's handler accepts, the publication of
+// the victim's acceptance fails (mode fail: error at once, block: until the context ends). 11 s later the
+// harness sends in M's name the parent update that withdraws that sub-channel with exactly the balances of
+// the final state that was never agreed.
+func (sc *mScene) finUndelivRun(obs *msgsObs, member, mode string) string {
+	V := sc.V
+	V.OnProposal, V.OnUpdate = nil, nil
+	sc.w.Bus.Drop = nil
+	obs.Items = []mItemObs{{Name: "finundeliv/" + member, Cat: "finundeliv", Mut: true}}
+	it := &obs.Items[0]
+	vsub, msub := sc.vsubs[0], sc.msubs[0]
+	before := sc.signed(vsub)
+	armed := true
+	victimBus.FailNext = func(e *wire.Envelope) string {
+		if acc, ok := e.Msg.(*client.ChannelUpdateAccMsg); ok && armed && acc.ChannelID == vsub.ID() {
+			armed = false
+			return mode
+		}
+		return ""
+	}
+	ctx, cancel := context.WithTimeout(context.Background(), 10*time.Second)
+	res := classify(msub.Update(ctx, pay(int(msub.Idx()), 1, true)))
+	cancel()
+	obs.Undeliv = victimBus.Failed
+	vsched.Sleep(11 * time.Second)
+	if member == "then-nothing" {
+		it.NA = true
+	} else {
+		fin := before.Clone()
+		fin.Balances[0][0].Sub(fin.Balances[0][0], mBig(1))
+		fin.Balances[0][1].Add(fin.Balances[0][1], mBig(1))
+		st := sc.signed(sc.led)
+		st.Version++
+		rest, _, ok := mWithout(st.Locked, vsub.ID())
+		if !ok {
+			it.NotExpr = "the parent does not hold the sub-allocation"
+			return res
+		}
+		st.Locked = rest
+		for p := range st.Balances[0] {
+			st.Balances[0][p].Add(st.Balances[0][p], fin.Balances[0][p])
+		}
+		env := &wire.Envelope{Sender: sc.M.WireID, Recipient: V.WireID, Msg: sc.finish(&updSpec{St: st, Actor: 0})}
+		if dec, _, why := mPrepare(env, false); dec == nil {
+			it.NotExpr = why
+			return res
+		}
+		if err := sc.w.Bus.Inject(env, false); err != nil {
+			panic("harness: inject: " + err.Error())
+		}
+	}
+	if strings.HasPrefix(res, "err:") {
+		res = "error"
+	}
+	return "M's final sub-channel update: " + res
 }
 
 var _ = persistence.NonPersistRestorer
